@@ -271,7 +271,8 @@ fn build(c: &Value) -> (TerminalCommand, String, Vec<RGBA>) {
             let coq = format!("Raw {}", cbytes(&d));
             (TerminalCommand::Raw(d), coq)
         }
-        _ => (TerminalCommand::Reset, "Reset".into()),
+        "Reset" => (TerminalCommand::Reset, "Reset".into()),
+        other => panic!("harness: unknown command kind {:?}", other),
     };
     (cmd, format!("({})", coq), colors)
 }
@@ -351,18 +352,21 @@ pub fn run(input: &Value) -> Case {
             }
         }
     }
-    // all commands go through ONE encoder object into one output
+    // all commands go through ONE encoder object into one output, which may already hold a
+    // complete prefix (`pre`); the bytes after the prefix are the observation
+    let pre = vbytes(&input["pre"]);
     let out = {
         let caps2 = caps.clone();
+        let pre2 = pre.clone();
         catch(move || {
             let mut enc = TTYEncoder::new(caps2);
-            let mut out = Vec::new();
+            let mut out = pre2.clone();
             for cmd in cmds {
                 if enc.encode(&mut out, cmd).is_err() {
                     return None;
                 }
             }
-            Some(out)
+            Some(out[pre2.len()..].to_vec())
         })
         .flatten()
     };
@@ -373,7 +377,7 @@ pub fn run(input: &Value) -> Case {
         coq_depth(depth),
         cbool(caps.glyphs),
         cbool(caps.kitty_keyboard),
-        if stream.is_some() { clist(coq_cmds) } else { coq_cmds[0].clone() },
+        if stream.is_some() { format!("{} {}", cbytes(&pre), clist(coq_cmds)) } else { coq_cmds[0].clone() },
         clist(oracle),
         copt(out.as_ref().map(|b| cbytes(b)))
     );
@@ -382,6 +386,13 @@ pub fn run(input: &Value) -> Case {
         Some(b) => json!(String::from_utf8_lossy(b)),
         None => json!("panic"),
     };
+    // known finding: a Char that opens a control sequence / string (ESC, C1 DCS SOS CSI OSC PM APC)
+    let introducer = cmd_values.iter().any(|c| {
+        c["t"] == "Char" && matches!(c["c"].as_u64().unwrap_or(0), 27 | 0x90 | 0x98 | 0x9b | 0x9d | 0x9e | 0x9f)
+    });
+    if introducer {
+        j["known_class"] = json!(["C05-char-introducer"]);
+    }
     let fixed = matches!(
         kind.as_str(),
         "FaceGet" | "CursorGet" | "CursorSave" | "CursorRestore" | "EraseLineLeft" | "EraseLineRight" | "EraseLine"
@@ -395,6 +406,7 @@ pub fn run(input: &Value) -> Case {
             format!("depth={}", depth),
             format!("kitty={}", caps.kitty_keyboard),
             format!("res={}", if out.is_some() { "bytes" } else { "panic" }),
+            format!("known={}", introducer),
         ],
         nontrivial: !fixed,
     }
@@ -453,7 +465,12 @@ fn rand_caps(rng: &mut Rng) -> Value {
     caps_json(*rng.pick(&DEPTHS), rng.chance(1, 2), rng.chance(1, 2))
 }
 fn rand_text(rng: &mut Rng, allow_c0: bool) -> String {
-    let n = rng.below(12) as usize;
+    // mostly short, sometimes long, occasionally very long
+    let n = match rng.below(100) {
+        0 => 300 + rng.below(200) as usize,
+        1..=9 => rng.below(64) as usize,
+        _ => rng.below(12) as usize,
+    };
     let mut s = String::new();
     for _ in 0..n {
         let c = match rng.below(12) {
@@ -478,14 +495,13 @@ fn rand_text(rng: &mut Rng, allow_c0: bool) -> String {
 fn rand_cmd(rng: &mut Rng) -> Value {
     match rng.below(24) {
         0 => {
-            let c = match rng.below(6) {
+            let c = match rng.below(8) {
                 0 => *rng.pick(&[0u32, 7, 8, 9, 10, 13, 24, 26, 28, 31, 32, 126, 160, 0x7ff, 0x800, 0xd7ff, 0xe000, 0xffff, 0x10000, 0x10ffff]),
-                1 => {
-                    let c = rng.below(32) as u32;
-                    if c == 27 { 10 } else { c }
-                }
-                2 => 0x10000 + rng.below(0x100000) as u32,
-                3 => 0xa0 + rng.below(0xd700) as u32,
+                1 => rng.below(32) as u32,                       // every C0 control, ESC included
+                2 => 0x7f + rng.below(0x21) as u32,              // DEL and every C1 control
+                3 => *rng.pick(&[27u32, 0x90, 0x98, 0x9b, 0x9d, 0x9e, 0x9f, 0x9c, 0x7f, 0x85]),
+                4 => 0x10000 + rng.below(0x100000) as u32,
+                5 => 0xa0 + rng.below(0xd700) as u32,
                 _ => 0x20 + rng.below(0x5f) as u32,
             };
             json!({"t": "Char", "c": c})
@@ -526,11 +542,7 @@ fn rand_cmd(rng: &mut Rng) -> Value {
                     }
                 })
                 .collect();
-            if names.len() == 1 && names[0].is_empty() {
-                json!({"t": "Termcap", "names": ["TN"]})
-            } else {
-                json!({"t": "Termcap", "names": names})
-            }
+            json!({"t": "Termcap", "names": names})
         }
         18 | 19 => {
             let name = match rng.below(3) {
@@ -587,7 +599,7 @@ pub fn generate(rng: &mut Rng, n: usize, tier: &str) -> Vec<Value> {
         for bits in 0..256u64 {
             let reps = if thorough { 4 } else { 1 };
             for r in 0..reps {
-                let k = if thorough { r } else { bits % 4 };
+                let k = if thorough { r } else { rng.below(4) };
                 let fg = if k & 1 != 0 { color_pool(rng) } else { Value::Null };
                 let bg = if k & 2 != 0 { color_pool(rng) } else { Value::Null };
                 v.push(json!({"caps": caps_json(depth, false, false), "cmd": {"t": "Face", "fg": fg, "bg": bg, "bits": bits}}));
@@ -618,7 +630,8 @@ pub fn generate(rng: &mut Rng, n: usize, tier: &str) -> Vec<Value> {
         }
     }
     // (d) extreme integers, systematically
-    let caps = caps_json("true", true, false);
+    for (depth, kitty) in [("true", true), ("256", false), ("gray", true)] {
+    let caps = caps_json(depth, kitty, false);
     let um = usize::MAX as u128;
     for x in [0u128, 1, 9, 10, (1 << 32) - 1, 1 << 32, (1 << 63) - 1, 1 << 63, um - 1, um] {
         for y in [0u128, 1, um - 1, um] {
@@ -634,12 +647,22 @@ pub fn generate(rng: &mut Rng, n: usize, tier: &str) -> Vec<Value> {
         }
         v.push(json!({"caps": caps, "cmd": {"t": "Scroll", "n": x.to_string()}}));
     }
+    }
+    let caps = caps_json("true", true, false);
     // (e) capability names with every byte value below 0x80 (one per name) and some multi-byte ones
     for b in 0u32..128 {
         let s: String = char::from_u32(b).unwrap().to_string();
         v.push(json!({"caps": caps, "cmd": {"t": "Termcap", "names": [format!("a{}", s), s]}}));
     }
     v.push(json!({"caps": caps, "cmd": {"t": "Termcap", "names": []}}));
+    v.push(json!({"caps": caps, "cmd": {"t": "Termcap", "names": [""]}}));
+    v.push(json!({"caps": caps, "cmd": {"t": "Termcap", "names": ["", ""]}}));
+    // every control character as Char (C0, DEL, C1); the seven sequence introducers are the known class
+    for c in (0u32..32).chain(0x7f..0xa0) {
+        v.push(json!({"caps": caps, "cmd": {"t": "Char", "c": c}}));
+    }
+    v.push(json!({"caps": caps, "cmds": [{"t": "Char", "c": 27}, {"t": "Char", "c": 99}]}));
+    v.push(json!({"caps": caps, "cmds": [{"t": "Char", "c": 0x9b}, {"t": "Char", "c": 50}, {"t": "Char", "c": 74}]}));
     v.push(json!({"caps": caps, "cmd": {"t": "Termcap", "names": ["", "Co"]}}));
     v.push(json!({"caps": caps, "cmd": {"t": "Termcap", "names": ["\u{e9}\u{20ac}\u{1f600}", "TN"]}}));
     // (f) random commands under random capabilities; every fifth case is a stream of 2..6 commands
@@ -655,7 +678,13 @@ pub fn generate(rng: &mut Rng, n: usize, tier: &str) -> Vec<Value> {
                     cmds.push(c);
                 }
             }
-            v.push(json!({"caps": rand_caps(rng), "cmds": cmds}));
+            // what preceded the stream: nothing, text, or complete control sequences of any kind
+            let prefixes: [&[u8]; 10] = [
+                b"", b"", b"hello [", b"\x1b[1;31m", b"\x1b]2;title\x07", b"\x1b[?25l\x1b[2J", b"\xc3\xa9\xe2\x82\xac ]0;",
+                b"\x1bP$qm\x1b\\", b"\x1b[38:2::1:2:3;4:3m", b"\x1b]4;1;?\x1b\\\x1b7",
+            ];
+            let pre = *rng.pick(&prefixes);
+            v.push(json!({"caps": rand_caps(rng), "pre": jbytes(pre), "cmds": cmds}));
         } else {
             v.push(json!({"caps": rand_caps(rng), "cmd": rand_cmd(rng)}));
         }
